@@ -26,6 +26,8 @@ def main():
     try:
         mod = importlib.import_module("replays." + modname)
         out = getattr(mod, fn)(payload)
+    except TimeoutError:
+        out = {"status": "timeout", "detail": "adapter exceeded its time budget (inconclusive, machine load?)"}
     except Exception:
         out = {"status": "error", "detail": traceback.format_exc()[-3000:]}
     print(json.dumps(out, default=str))
